@@ -114,10 +114,13 @@ CLAIMED = {
              "(Spqlios.SourcesUnchanged). Generated programs (both module types, both dispatches), limb-loop cases (incl. a=b), VMP "
              "shapes and pointwise cases are replayed with byte snapshots of every object (stride padding included) and of the "
              "module/table heap blocks around each call; the per-call change report (object, role, changed) is validated by TLC "
-             "against the write sets of Extents.tla (only the output, plus the documented scratch source of vec_znx_idft_tmp_a).",
+             "against the write sets of Extents.tla (only the output, plus the documented scratch source of vec_znx_idft_tmp_a). The "
+             "same replays run once more under a page-protection observer: every operand ends at an inaccessible page and every operand "
+             "a call only reads is write-protected during the call, so a source that is written - even if restored before return - faults.",
         design_ref="DESIGN.md section 4 C18",
-        note="Trusted: TLC; table memory = heap blocks reachable from MODULE through the private headers (usable size). A temporary "
-             "modification restored before return is invisible here (only C12's concurrent runs would see it).",
+        note="Trusted: TLC; table memory = heap blocks reachable from MODULE through the private headers (usable size). Module and "
+             "table memory cannot be write-protected: a temporary modification of it, restored before return, is visible only to C12's "
+             "concurrent runs.",
         technique="TLA+ frame invariants checked with TLC + replay with whole-memory snapshots + TLC trace validation of change reports"),
     "C12": dict(
         category="model_checking",
